@@ -15,7 +15,7 @@ import itertools
 import numpy as np
 
 from mc import ref, build
-from mc.core import Part, pmap, digest, safe
+from mc.core import Part, pmap, digest, safe, time_limit
 from mc.build import parse_atom, atom_str
 
 NAME = "n"
@@ -322,7 +322,8 @@ def check_normalize(params):
         bad("no-termination", "neither end nor repeat within %d steps" % horizon)
         return out
     try:
-        nf, exc = d.normal_form(left=left), None
+        with time_limit(20, "normal_form"):
+            nf, exc = d.normal_form(left=left), None
     except Exception as e:  # noqa
         nf, exc = None, e
     if status == "cycle":
